@@ -5,7 +5,11 @@
 (*   and Document::compress / Document::decompress over all streams.        *)
 (*                                                                          *)
 (* A stream state is the projection pi(Stream) the harness logs:            *)
-(*   [filters |-> Seq(name), form |-> "none"|"dict"|"array"|"other",        *)
+(*   [filters |-> Seq(name),                                                *)
+(*    ff      |-> how the Filter entry is written: "none" (no entry) |       *)
+(*                "name" | "array" | "null" | "other"; filters = <<>> with    *)
+(*                ff = "array" is /Filter [], a chain of zero filters,        *)
+(*    form    |-> "none"|"dict"|"array"|"other",                            *)
 (*    parms   |-> Seq(parameter record)   (the DecodeParms entry as written: *)
 (*                one record for a dictionary, one per element of an array), *)
 (*    length  |-> the Length entry (-1 = missing), content |-> Seq(Byte),    *)
@@ -70,12 +74,16 @@ DecompressOK(pre, post) ==
     /\ (pre.filters # <<>> /\ Decodable(pre)) => (post.filters = <<>> /\ post.content = View(pre).data)
 
 \* a logged decode result [ok, data] of the stream (decompressed_content / get_plain_content)
-DecodeAgrees(s, r) == (s.filters # <<>> /\ Decodable(s)) => (r.ok /\ r.data = View(s).data)
+\* (for a chain of zero filters decompressed_content has a result only in the spelling /Filter []; it is
+\*  the content: ISO 32000-1 Table 5 "an array of zero, one or several names")
+DecodeAgrees(s, r) ==
+    /\ (s.filters # <<>> /\ Decodable(s)) => (r.ok /\ r.data = View(s).data)
+    /\ (s.filters = <<>> /\ s.ff = "array") => (r.ok /\ r.data = s.content)
 
 -----------------------------------------------------------------------------
 (* Impl-shaped layer *)
 
-Plain(s) == [s EXCEPT !.filters = <<>>, !.form = "none", !.parms = <<>>]
+Plain(s) == [s EXCEPT !.filters = <<>>, !.ff = "none", !.form = "none", !.parms = <<>>]
 
 ImplSetContent(s, b) == [s EXCEPT !.content = b, !.length = Len(b), !.orc = NoOracle]
 
@@ -85,22 +93,28 @@ ImplSetPlain(s, b) == [Plain(s) EXCEPT !.content = b, !.length = Len(b), !.orc =
 \* A DecodeParms entry left over on a filter-less stream is dropped when the filter is added
 \* (fix: e6ae879); devStale = TRUE re-creates the repaired defect compress.stale-decodeparms (entry kept).
 ImplCompress(s, c, devStale) ==
-    IF s.filters = <<>> /\ Len(c) + 19 < Len(s.content)
+    IF s.ff = "none" /\ Len(c) + 19 < Len(s.content)          \* only when the dictionary has no Filter entry at all
     THEN LET t == IF devStale THEN s ELSE [s EXCEPT !.form = "none", !.parms = <<>>]
-         IN [t EXCEPT !.filters = <<Flate>>, !.content = c, !.length = Len(c), !.orc = [has |-> TRUE, data |-> s.content]]
+         IN [t EXCEPT !.filters = <<Flate>>, !.ff = "name", !.content = c, !.length = Len(c), !.orc = [has |-> TRUE, data |-> s.content]]
     ELSE s
 
 ImplView(s, devAvg, devArr, devNul) == ImplDecodeO(s.content, Chain(s), s.form, s.orc, devAvg, devArr, devNul)
 
-ImplDecompress(s, devAvg, devArr, devNul) ==
+\* devEmpty (open finding filter.empty-array): for /Filter [] the loop over the filters never runs and the
+\* *empty* output buffer becomes the content; repaired = the content is kept
+ImplDecompress(s, devAvg, devArr, devNul, devEmpty) ==
     LET d == ImplView(s, devAvg, devArr, devNul)
-    IN IF s.filters # <<>> /\ (\A i \in 1..Len(s.filters) : s.filters[i] \in Known) /\ d.ok
+    IN IF s.filters = <<>> /\ s.ff = "array"
+       THEN LET c == IF devEmpty THEN <<>> ELSE s.content
+            IN [Plain(s) EXCEPT !.content = c, !.length = Len(c), !.orc = NoOracle]
+       ELSE IF s.filters # <<>> /\ (\A i \in 1..Len(s.filters) : s.filters[i] \in Known) /\ d.ok
        THEN [Plain(s) EXCEPT !.content = d.data, !.length = Len(d.data), !.orc = NoOracle]
        ELSE s
 
 \* Document::compress honours allows_compression, Stream::compress does not
 ImplDocCompress(ss, cs, devStale) == [i \in 1..Len(ss) |-> IF ss[i].allows THEN ImplCompress(ss[i], cs[i], devStale) ELSE ss[i]]
-ImplDocDecompress(ss, devAvg, devArr, devNul) == [i \in 1..Len(ss) |-> ImplDecompress(ss[i], devAvg, devArr, devNul)]
+ImplDocDecompress(ss, devAvg, devArr, devNul, devEmpty) ==
+    [i \in 1..Len(ss) |-> ImplDecompress(ss[i], devAvg, devArr, devNul, devEmpty)]
 
 -----------------------------------------------------------------------------
 (* Classes of input on which the code deviated before the fix: commits (narrow signatures of  *)
@@ -127,9 +141,10 @@ KnownClasses(s, op) ==
              /\ UsesPng(ParmFor(s, 1)) /\ RowLen(ParmFor(s, 1)) > Bpp(ParmFor(s, 1))
              /\ PredictorInput(s).ok /\ HasAvgRow(PredictorInput(s).data, RowLen(ParmFor(s, 1)))
           THEN {"png.avg"} ELSE {})
+    \cup (IF s.filters = <<>> /\ s.ff = "array" /\ s.content # <<>> THEN {"filter.empty-array"} ELSE {})
 
 \* the switches that reproduce class k in the impl-shaped layer
-ImplViewFor(s, k) == ImplView(s, k = "png.avg", k = "decodeparms.array", FALSE)
+ImplViewFor(s, k) == IF k = "filter.empty-array" THEN Good(<<>>) ELSE ImplView(s, k = "png.avg", k = "decodeparms.array", FALSE)
 
 -----------------------------------------------------------------------------
 (* Summarised contents.  Losslessness and decode correctness must not depend on the size or   *)
